@@ -42,6 +42,10 @@ def run(repo, rep, tier):
     rep.rule("R05.6", "Scope: local layer over shared root")
     rep.rule("R05.7", "compile-time scope/alias stacks are balanced")
 
+    rep.rule("R05.8", "abnormal exit: the one place where generated code "
+                      "ends an exception's propagation (tal:on-error) puts "
+                      "the local variables back as they were on entry")
+
     binders = ["visit_Define", "visit_Repeat"]
     for name in binders:
         func = repo.func(COMP + name)
@@ -57,6 +61,7 @@ def run(repo, rep, tier):
     rep.require_min("R05.2", 2, "backup locals of define and repeat")
 
     _marker_rule(repo, rep)
+    _abnormal_exit_rule(repo, rep)
     _globals_rule(repo, rep)
     _reserved_rule(repo, rep)
     _nametransform_rule(repo, rep)
@@ -438,3 +443,75 @@ def _scope_rule(repo, rep):
               "get_name raises NameError for an undefined name (a caught "
               "class of the pipe operator)", construct="get_name",
               where=L.where(gn), detail=text)
+
+
+def _abnormal_exit_rule(repo, rep):
+    """The save/restore brackets of R05.1 are straight-line code: a failure
+    inside the body skips the restore.  That is harmless while the
+    exception leaves the render function -- but tal:on-error catches it
+    and rendering continues in the same scope.  Every emitter that emits an
+    exception handler which does not re-raise must therefore restore the
+    scope itself."""
+    comp = repo.cls("chameleon.compiler.Compiler")
+    n = 0
+    for name, m in sorted(comp.methods.items()):
+        if not name.startswith("visit_"):
+            continue
+        res = L.emission(repo, m.qualname)
+        lin = L.Lin(res.emission)
+        for i, (it, conds, path) in enumerate(lin.rows):
+            if not (isinstance(it, A.Py) and it.kind == "Try"):
+                continue
+            # does the body contain user content (a child emission)?
+            body_kids = [w for w in A.walk(it.f.get("body"))
+                         if isinstance(w, A.Child)]
+            if not body_kids:
+                continue
+            for h in A.items_of(it.f.get("handlers")):
+                if not (isinstance(h, A.Py) and h.kind == "ExceptHandler"):
+                    continue
+                hitems = [w for w in A.walk(h.f.get("body"))
+                          if isinstance(w, (A.Frag, A.Child, A.Py))]
+                reraises = any(
+                    (isinstance(w, A.Frag) and L.frag_find(w, "raise")) or
+                    (isinstance(w, A.Py) and w.kind == "Raise")
+                    for w in hitems)
+                if reraises:
+                    continue
+                n += 1
+                # the snapshot: a fragment before the try, same emitter
+                snaps = [(j, w) for j, (w, c_, p_) in enumerate(lin.rows[:i])
+                         if isinstance(w, A.Frag) and
+                         L.frag_find(w, "_S = _D.copy(econtext)")]
+                ok = False
+                detail = "no 'X = dict.copy(econtext)' before the try"
+                if snaps:
+                    j, sf = snaps[-1]
+                    b = L.frag_find(sf, "_S = _D.copy(econtext)")[0][1]
+                    skey = L.name_key(sf, b["_S"])
+                    dval = L.slot_value(sf, b["_D"])
+                    per_node = skey[0] != "lit" and "id(node)" in str(skey)
+                    is_dict = dval is not None and "dict" in A.show(dval)
+                    first = hitems[0] if hitems else None
+                    restored = False
+                    if isinstance(first, A.Frag):
+                        fb = L.frag_find(first, "_D.clear(econtext)", "expr")
+                        fu = L.frag_find(first, "econtext.update(_S)", "expr")
+                        fg = L.frag_find(first, "econtext.update(rcontext)",
+                                         "expr")
+                        same = any(L.name_key(first, x[1]["_S"]) == skey
+                                   for x in fu)
+                        restored = bool(fb) and same and bool(fg)
+                    ok = per_node and is_dict and restored
+                    detail = "snapshot per node: %s, dict.copy: %s, handler " \
+                             "starts with clear/update(snapshot)/update(" \
+                             "rcontext): %s" % (per_node, is_dict, restored)
+                rep.check(ok, "R05.8", m.qualname, "the handler that ends a "
+                          "failure's propagation first restores the local "
+                          "variables from a per-node snapshot taken before "
+                          "the body, then re-applies the globals: bindings "
+                          "of elements cut short by the failure are undone",
+                          construct="handler-restores-scope",
+                          where=L.where(m), detail=detail)
+    rep.require_min("R05.8", 1, "swallowing handlers around child content "
+                                "(tal:on-error)")
